@@ -30,9 +30,9 @@ SPEC = dict(
     trusted_base=[
         "hand-written model coq/models/RevEpoch.v of snap/revision.go and snap/epoch.go, tied by the differential run (harness/overlay/zzverif/c35/main.go)",
         "decimal printing/parsing modelled with the standard library's N.to_uint / N.of_uint (coq/lib/Dec.v)",
-        "encoding/json and yaml.v2 themselves are not modelled: structured epoch input (JSON object) is only monitored on the implementation (parse-back of String and MarshalJSON output), not proved",
+        "encoding/json and yaml.v2 themselves are not modelled: the structured epoch form is read by a model reader for the exact bytes json.Marshal prints; arbitrary JSON spellings (white space, key order, unknown keys, null) are outside the model and only run on the implementation",
     ],
-    assumptions=["PARTIAL: the epoch round trip is proved for the short forms (0, N, N*) only; structured forms go through encoding/json, which is not modelled (printed bytes compared, parse-back monitored). Revision round trip, rejection, CanRead = set intersection and valid-reads-self are proved in full.",
+    assumptions=["PARTIAL only with respect to encoding/json and yaml.v2, which are not modelled: the epoch round trip is proved for the short forms through fromString and for the structured form through a reader of exactly the byte language json.Marshal prints (no white space, fixed key order) followed by fromStructured; that Go's decoder reads those bytes the same way is checked by the differential run on every generated epoch. Revision round trip, rejection, CanRead = set intersection and valid-reads-self are proved in full.",
                  "Go int is 64 bit (amd64)",
                  "Revision.UnmarshalJSON on the single byte `\"` (never produced by encoding/json) panics in the Go code and is not exercised",
                  "epoch numbers are uint32: theorems assume list entries < 2^32"],
